@@ -51,6 +51,13 @@ class LimitMonitor(hist.Monitor):
         self.accepted = 0
         self.rejected = 0
 
+    def _infeasible_transfer_step(self, eng, op, out, det):
+        bad = _infeasible(eng, op, self.pre)
+        if bad:
+            self.ctx.count("transfer_with_infeasible_step")
+            self.ctx.check("transfer_step_beyond_the_limits_in_any_order_is_rejected", out.exc is not None,
+                           lambda: det({"infeasible_steps": bad}))
+
     def before(self, eng, op):
         self.pre = {n: eng.cur(n) for n in eng.descs}
 
@@ -114,6 +121,8 @@ class LimitMonitor(hist.Monitor):
             elif status == "either":
                 ctx.count("either_band")
         else:
+            if k == "transfer":
+                self._infeasible_transfer_step(eng, op, out, det)
             if is_vv:
                 self.rejected += 1
                 ctx.count("limit_reached_via:" + k)
@@ -124,6 +133,38 @@ class LimitMonitor(hist.Monitor):
         f = op.get("_fault")
         if f:
             ctx.feature("fault_aim", f"{k}:{f[0]}")
+
+
+def _infeasible(eng, op, pre):
+    """Indices of unsplit transfer steps that cannot be executed in ANY order of the steps:
+    the aspirate needs more than the source well can ever hold during the call, or the dispense
+    more room than the destination well can ever have."""
+    from ..attach import real_index
+
+    s, d, v = flat_f(dec(op["sw"])), flat_f(dec(op["dw"])), [float(x) for x in flat_f(dec(op["vol"]))]
+    n = max(len(s), len(d), len(v))
+    s = s * n if len(s) == 1 else s
+    d = d * n if len(d) == 1 else d
+    v = v * n if len(v) == 1 else v
+    if not (len(s) == len(d) == len(v)) or any(not math.isfinite(x) or x < 0 for x in v):
+        return []
+    sd, dd = eng.descs[op["src"]], eng.descs[op["dst"]]
+    wl = eng.case["worklist"]
+    out = []
+    for i in range(n):
+        if v[i] <= 0 or (wl.get("auto_split", True) and v[i] > wl["max_volume"]):
+            continue  # split steps pass through the well in portions: not judged here
+        si, di = real_index(sd, s[i]), real_index(dd, d[i])
+        if si is None or di is None:
+            return []
+        gain = sum(v[j] for j in range(n) if j != i and op["src"] == op["dst"] and real_index(dd, d[j]) == si)
+        have = float(pre[op["src"]][si]) + gain - sd["min_volume"]
+        loss = sum(v[j] for j in range(n) if op["src"] == op["dst"] and real_index(sd, s[j]) == di)
+        room = dd["max_volume"] - float(pre[op["dst"]][di]) + loss
+        scale = max(abs(have), abs(room), v[i], 1.0)
+        if v[i] > have + 1e-6 * scale or v[i] > room + 1e-6 * scale:
+            out.append(i)
+    return out
 
 
 def n_cases(tier):
@@ -148,6 +189,7 @@ def gen_case(rng, tier, index):
         if d.get("names") is not None:
             rows = 1 if d["kind"] == "trough" else d["rows"]
             d["names"] = {f"{r},{c}": f"{d['name']}@{r}.{c}" for r in range(rows) for c in range(d["columns"]) if d["initial"][r][c] > 0}
+    gen.sync_twins(wt)
     n_ops = rng.choice([5, 10, 20, 40, 40, 80, 200 if tier == "thorough" else 60])
     return {"worklist": wl, "worktable": wt, "n_ops": n_ops, "opseed": rng.getrandbits(48), "profile": "limits", "vclass": vclass}
 
